@@ -435,7 +435,9 @@ func (t *Thread) cleanupCloseStack(c Cont, h int, err error) error {
 		if Truth(v) {
 			closeErr, ok := Metacall(t, v, "__close", []Value{v, ErrorValue(err)}, NewTerminationWith(c, 0, false))
 			if !ok {
-				return errors.New("to be closed value missing a __close metamethod")
+				// Like an error raised by a __close metamethod, this replaces
+				// the error in flight and the remaining values are still closed.
+				closeErr = errors.New("to be closed value missing a __close metamethod")
 			}
 			if closeErr != nil {
 				err = closeErr
